@@ -347,15 +347,40 @@ def mk_select(c: Term, a: Term, b: Term) -> Term:
     return ("select", pc, a, b)
 
 
+# classes introduced after the pinned tree whose instances are plain records (NamedTuple / dataclass without __init__):
+# qualified name -> field names in order.  Filled by norm.Ctx; a field read of a freshly built record is the argument it was
+# built with, so a tuple of values passed between helpers as a small record reads like the values themselves.
+RECORD_CLASSES: Dict[str, Tuple[str, ...]] = {}
+
+
+def _record_field(base: Term, name: Optional[str] = None, index: Optional[int] = None) -> Optional[Term]:
+    if base[0] != "new" or base[1] not in RECORD_CLASSES:
+        return None
+    fields = RECORD_CLASSES[base[1]]
+    args = dict(base[2])
+    if name is None and index is not None and -len(fields) <= index < len(fields):
+        name = fields[index]
+    if name in fields and name in args:
+        return args[name]
+    return None
+
+
 def mk_attr(base: Term, name: str) -> Term:
     if base[0] == "select":
         return mk_select(base[1], mk_attr(base[2], name), mk_attr(base[3], name))
+    r = _record_field(base, name=name)
+    if r is not None:
+        return r
     return ("attr", base, name)
 
 
 def mk_idx(base: Term, i: Term) -> Term:
     if base[0] == "select":
         return mk_select(base[1], mk_idx(base[2], i), mk_idx(base[3], i))
+    if base[0] == "new" and i[0] == "c" and isinstance(i[1], int) and not isinstance(i[1], bool):
+        r = _record_field(base, index=i[1])
+        if r is not None:
+            return r
     if base[0] in ("tuple", "list") and i[0] == "c" and isinstance(i[1], int) and -len(base[1]) <= i[1] < len(base[1]) \
             and not any(x[0] == "star" for x in base[1]):
         return base[1][i[1]]
@@ -375,6 +400,8 @@ def mk_slice(base: Term, lo: Term, hi: Term, step: Term) -> Term:
         lo = NONE
     if step == C(1):
         step = NONE
+    if base[0] == "slice" and base[2:] == (NONE, NONE, NONE):
+        base = base[1]                       # a slice of a full copy xs[:] is that slice of xs
     # xs[prefixlen(P, xs):] == dropwhile(P, xs) ; xs[:prefixlen(P, xs)] == takewhile(P, xs)   (see sa/desugar.py)
     def plen(t):
         return t[0] == "call" and t[1] == "sa.prefixlen" and len(t[2]) == 2 and t[2][1] == base
@@ -600,6 +627,11 @@ def specialize(t: Term, facts: Dict[Term, bool], boolpos: bool = False) -> Term:
             if px in facts:
                 return C(facts[px] if pol else not facts[px])
         tag = x[0]
+        if tag in ("and", "or"):
+            # De Morgan: the truth of (a or b) is known when that of (not a and not b) is, and the other way round
+            dual = (mk_and if tag == "or" else mk_or)([mk_not(y) for y in x[1]])
+            if dual in facts:
+                return C(not facts[dual])
         if tag == "and":
             return mk_and([cond(y) for y in x[1]])
         if tag == "or":
